@@ -396,7 +396,7 @@ func init() {
 				}
 				if (p.Mode == "users" && !p.ViaFile) || p.Mode == "setupfail" {
 					// the verdict counts failures however they were reported, and whatever the logger shows
-					p.FailVia = pick(r, 0, engine.BErrorf, engine.BAssert, engine.BError, engine.BFatalf, engine.BRequire, engine.BPanicString)
+					p.FailVia = pick(r, 0, engine.BErrorf, engine.BAssert, engine.BError, engine.BFatalf, engine.BRequire, engine.BPanicString, engine.BOtherFailNow, engine.BOtherRequire)
 					p.Quiet = r.IntN(2) == 0
 				}
 				c := core.MkCase("C08", "cli", k, seed, p)
@@ -449,13 +449,13 @@ func init() {
 				cs = append(cs, c)
 			}
 			// failures that are reported through the logging APIs, into a logger that shows nothing
-			for i, via := range []int{engine.BErrorf, engine.BAssert, engine.BError, engine.BFatalf} {
+			for i, via := range []int{engine.BErrorf, engine.BAssert, engine.BError, engine.BFatalf, engine.BOtherFailNow, engine.BOtherRequire} {
 				for j, mode := range []string{"users", "setupfail"} {
-					if tier == "quick" && i >= 2 && j == 1 {
+					if (tier == "quick" && i >= 2 && j == 1) || (i >= 4 && j == 1) {
 						continue
 					}
 					p := c08CLIParams{Mode: mode, N: 20, Fail: 3 + i, MaxF: pick(r, 0, 2), Conc: 2, FailVia: via, Quiet: true}
-					c := core.MkCase("C08", "cli", 900+2*i+j, seed, p)
+					c := core.MkCase("C08", "cli", 920+2*i+j, seed, p)
 					c.Solo = true
 					c.TimeoutMS = 60000
 					cs = append(cs, c)
@@ -790,6 +790,10 @@ func c08CLI(c *core.Case, o *core.Outcome) {
 	gate := make(chan struct{})
 	scenario := func(t *f1testing.T) f1testing.RunFn {
 		setupRuns.Add(1)
+		if p.Mode != "setupfail" && (p.FailVia == engine.BOtherFailNow || p.FailVia == engine.BOtherRequire) {
+			// failing iterations stop through the handle captured here (a require.New(t) made in setup, say)
+			engine.OtherHandle.Store(t)
+		}
 		if p.Mode == "teardownfail" {
 			kinds := []int{engine.BFailNow, engine.BFail, engine.BPanicString, engine.BPanicError, engine.BNilMap, engine.BRequire, engine.BPanicInt}
 			kind := kinds[p.Conc%len(kinds)]
